@@ -17,6 +17,7 @@ from .. import build
 from .common import initial, mval, T
 from . import batteries as B
 from . import dri
+from ..replay import Scenario
 
 
 def rep():
@@ -284,3 +285,61 @@ def default_value_parse(O):
     for b_ in bad:
         O.violation(b_, None, dict(R.facts, what=b_[:80]), R.battery, R.judge, b_)
     O.note("parse calls: %s" % parses)
+
+
+def malformed_xml_scenarios():
+    """malformed documents whose XML error carries a position: LF / CRLF, ASCII / multi-byte text before the error, error on
+    early and late rows - loading must return an error (with a location), never panic"""
+    out = []
+    lines = ["<?xml version=\"1.0\" encoding=\"utf-8\"?>", "<circuit>", "<version>1</version>", "<a>\u00fc\u00df</a>", "<b>\u4fe1\u53f7\u00df</b>",
+             "<c>gr\u00f6\u00dfe \U0001F600</c>", "<visualElements>"]
+    for eol in ("\n", "\r\n"):
+        for k in range(1, len(lines) + 1):
+            for bad in ("</wrong>", "<x></y>", "<<", "&bogus;", "<e a=1>"):
+                doc = eol.join(lines[:k] + [bad]) + eol
+                out.append(Scenario(doc, [], mode="dig", expect={"dig": "err"},
+                                    note="malformed XML %r on row %d, line ends %r" % (bad, k + 1, eol)))
+    # text lines that END in characters of 2, 3 and 4 bytes, the error on the row below (rows 2 .. 12): a line start that is
+    # off by a few bytes lands inside one of them
+    tails = ["\u00df", "\u4fe1", "\U0001F600", "\u00fc\u00df", "\u53f7\u00df", "x\U0001F600\u00e9"]
+    for eol in ("\r\n", "\n", "\r"):
+        for r in range(2, 13):
+            for shift in range(3):
+                body = ["<circuit>"] + ["t%d %s" % (i, tails[(i + shift) % len(tails)]) for i in range(r - 2)]
+                for bad in ("</wrong>", "\u00e4<<"):
+                    out.append(Scenario(eol.join(body + [bad]) + eol, [], mode="dig", expect={"dig": "err"},
+                                        note="XML error on row %d below lines ending in multi-byte characters, line ends %r" % (r, eol)))
+    return out
+
+
+@obligation("C16/error-position-no-panic", desc="text_pos_to_range (location of an XML error; roxmltree positions are 1-based, "
+            "the sum of line lengths stays below the text length): apart from arithmetic that the contract excludes, the "
+            "function consists of the iterator chain lines / take / map / sum - no string slicing or other operation that "
+            "can panic on a position that is not a character boundary")
+def error_position_no_panic(O):
+    import re
+    R = dri.Rep(dict(rep().facts, what="XML error position"), malformed_xml_scenarios() + list(rep().battery), rep().judge)
+    fn = O.find("text_pos_to_range")
+    eng = O.engine()
+    eng.iter_bound = 3
+    paths = O.explore(eng, fn)
+    allowed = (r"core::str::<impl str>::lines$", r"<Lines as Iterator>::take$", r"<Take as Iterator>::map$", r"<Map as Iterator>::sum$")
+    n = 0
+    for p in paths:
+        eng.focus(p)
+        other = [e.norm for e in p.trace if e.kind == "call" and not any(re.search(a, e.norm) for a in allowed)]
+        if other:
+            R.fail(O, p, "text_pos_to_range performs %s, which may panic or misplace the location for positions off a "
+                         "character boundary" % other[0])
+            continue
+        if p.outcome == "panic":
+            if "overflow" in (p.detail or ""):
+                O.assumed_unreachable("text_pos_to_range: %s" % p.detail, "roxmltree positions are 1-based (row >= 1, col >= 1) and the "
+                                      "summed line lengths plus the column stay below usize::MAX")
+                continue
+            R.fail(O, p, "text_pos_to_range panics: %s" % p.detail)
+            continue
+        if p.outcome == "return":
+            n += 1
+    if n == 0:
+        O.inconclusive("vacuous: text_pos_to_range never returns")
